@@ -1,26 +1,24 @@
-import CE.Rules.Limits
+import CE.Rules.Pending
 /-
-  C13, the pending-reference table lifted to whole documents: in every state the validator reaches on
-  any stream, no pending (forward) reference names an identifier that is already registered as a
-  marker (`run_pend`).  Together with `endDocument` rejecting a non-empty pending table this makes the
-  end-of-document check exact: what is pending there is precisely the set of references whose marker
-  never came.  Same per-statement case analysis as CE/Rules/Limits.lean.
+  C13, the table of waiting forward references holds each identifier at most once, in every state the
+  validator reaches on any stream (`run_fwd`; same per-statement case analysis as CE/Rules/Limits.lean).
+  With CE/Rules/Pending.lean (waiting ∩ registered = ∅) and CE/Rules/Markers.lean (registered distinct):
+  the identifiers the validator knows are partitioned, without repetition, into registered and waiting.
 -/
 namespace CE.Rules
 
-/-- no pending forward reference names a registered marker -/
-def PInv (_cfg : Cfg) (s : RState) : Prop :=
-  ∀ x ∈ s.forward.map (·.1), lookupForward s.marked x = none
+/-- no identifier waits twice in the table of forward references -/
+def FInv (_cfg : Cfg) (s : RState) : Prop := (s.forward.map (·.1)).Nodup
 
-theorem stackRule_p (cfg : Cfg) (s : RState) (r : Rule) (dt : DT) (e : Option Nat) (hk : PInv cfg s) : PInv cfg (stackRule s r dt e) := hk
+theorem stackRule_f (cfg : Cfg) (s : RState) (r : Rule) (dt : DT) (e : Option Nat) (hk : FInv cfg s) : FInv cfg (stackRule s r dt e) := hk
 
-theorem unstackRule_p (cfg : Cfg) (s s' : RState) (h : unstackRule s = .ok s') (hk : PInv cfg s) : PInv cfg s' := by
+theorem unstackRule_f (cfg : Cfg) (s s' : RState) (h : unstackRule s = .ok s') (hk : FInv cfg s) : FInv cfg s' := by
   unfold unstackRule at h; split at h
   · cases h
   · injection h with h; subst h; exact hk
 
-theorem beginContainer_p (cfg : Cfg) (s s' : RState) (r : Rule) (dt : DT) (e : Option Nat)
-    (h : beginContainer cfg s r dt e = .ok s') (hk : PInv cfg s) : PInv cfg s' := by
+theorem beginContainer_f (cfg : Cfg) (s s' : RState) (r : Rule) (dt : DT) (e : Option Nat)
+    (h : beginContainer cfg s r dt e = .ok s') (hk : FInv cfg s) : FInv cfg s' := by
   unfold beginContainer at h
   simp only [bind, Except.bind, pure, Except.pure] at h
   split at h
@@ -29,19 +27,19 @@ theorem beginContainer_p (cfg : Cfg) (s s' : RState) (r : Rule) (dt : DT) (e : O
     injection h with h; subst h
     exact hk
 
-theorem notifyKey_p (cfg : Cfg) (s s' : RState) (k : NormKey) (h : notifyKey s k = .ok s') (hk : PInv cfg s) : PInv cfg s' := by
+theorem notifyKey_f (cfg : Cfg) (s s' : RState) (k : NormKey) (h : notifyKey s k = .ok s') (hk : FInv cfg s) : FInv cfg s' := by
   unfold notifyKey at h; split at h
   · cases h
   · injection h with h; subst h; exact hk
 
-theorem beginArrayAny_p (cfg : Cfg) (s s' : RState) (t : ArrT) (h : beginArrayAny cfg s t = .ok s') (hk : PInv cfg s) : PInv cfg s' := by
+theorem beginArrayAny_f (cfg : Cfg) (s s' : RState) (t : ArrT) (h : beginArrayAny cfg s t = .ok s') (hk : FInv cfg s) : FInv cfg s' := by
   unfold beginArrayAny at h
   split at h
   · cases h
   · split at h <;> (injection h with h; subst h; exact hk)
 
-theorem leaveArray_p (cfg : Cfg) (s : RState) (args : Args) (b : Bool) (st : Step) (h : leaveArray s args b = .ok st) (hk : PInv cfg s) :
-    PInv cfg st.state := by
+theorem leaveArray_f (cfg : Cfg) (s : RState) (args : Args) (b : Bool) (st : Step) (h : leaveArray s args b = .ok st) (hk : FInv cfg s) :
+    FInv cfg st.state := by
   unfold leaveArray at h
   simp only [bind, Except.bind, pure, Except.pure] at h
   cases hu : unstackRule s with
@@ -49,27 +47,23 @@ theorem leaveArray_p (cfg : Cfg) (s : RState) (args : Args) (b : Bool) (st : Ste
   | ok s1 =>
     simp only [hu] at h
     injection h with h; subst h
-    exact unstackRule_p cfg s s1 hu hk
+    exact unstackRule_f cfg s s1 hu hk
 
-theorem ite_ok_p (cfg : Cfg) (s v : RState) (c : Prop) [Decidable c] (e : RErr) (rts : List (Bytes × Nat))
-    (h : (if c then (Except.error e : M RState) else Except.ok { s with recordTypes := rts }) = Except.ok v) (hk : PInv cfg s) : PInv cfg v := by
+theorem ite_ok_f (cfg : Cfg) (s v : RState) (c : Prop) [Decidable c] (e : RErr) (rts : List (Bytes × Nat))
+    (h : (if c then (Except.error e : M RState) else Except.ok { s with recordTypes := rts }) = Except.ok v) (hk : FInv cfg s) : FInv cfg v := by
   split at h
   · cases h
   · injection h with h; subst h; exact hk
 
-theorem unstack_depth_p (cfg : Cfg) (a b : RState) (h : unstackRule { a with depth := a.depth - 1 } = .ok b) (hk : PInv cfg a) : PInv cfg b :=
-  unstackRule_p cfg _ _ h hk
+theorem unstack_depth_f (cfg : Cfg) (a b : RState) (h : unstackRule { a with depth := a.depth - 1 } = .ok b) (hk : FInv cfg a) : FInv cfg b :=
+  unstackRule_f cfg _ _ h hk
 
-theorem lookup_cons_ne (l : List (Bytes × DT)) (id x : Bytes) (dt : DT) (hne : (id == x) = false) :
-    lookupForward ((id, dt) :: l) x = lookupForward l x := by
-  simp [lookupForward, List.find?, hne]
+theorem nodup_filter_keys (l : List (Bytes × DT)) (id : Bytes) (h : (l.map (·.1)).Nodup) :
+    ((l.filter (·.1 != id)).map (·.1)).Nodup := by
+  have hsub : ((l.filter (·.1 != id)).map (·.1)).Sublist (l.map (·.1)) := (List.filter_sublist).map _
+  exact hsub.nodup h
 
-theorem lookup_none_of_not_mem (l : List (Bytes × DT)) (x : Bytes) (h : x ∉ l.map (·.1)) : lookupForward l x = none := by
-  cases hx : lookupForward l x with
-  | none => rfl
-  | some v => exact absurd (lookup_mem l x v hx) h
-
-theorem markObject_p (cfg : Cfg) (s s' : RState) (dt : DT) (h : markObject cfg s dt = .ok s') (hk : PInv cfg s) : PInv cfg s' := by
+theorem markObject_f (cfg : Cfg) (s s' : RState) (dt : DT) (h : markObject cfg s dt = .ok s') (hk : FInv cfg s) : FInv cfg s' := by
   unfold markObject at h
   simp only [bind, Except.bind, pure, Except.pure, throw, throwThe, MonadExceptOf.throw] at h
   split at h
@@ -77,70 +71,47 @@ theorem markObject_p (cfg : Cfg) (s s' : RState) (dt : DT) (h : markObject cfg s
   split at h
   · cases h
   split at h
-  · -- no pending reference to this id: the id is not in the pending table at all
-    rename_i hnone
-    injection h with h; subst h
-    intro x hx
-    have hxm := hk x hx
-    by_cases hne : (s.markerID == x) = true
-    · have : x = s.markerID := (eq_of_beq hne).symm
-      subst this
-      have : lookupForward s.forward s.markerID ≠ none := by
-        obtain ⟨p, hp, hpe⟩ := List.mem_map.1 hx
-        intro hcon
-        simp only [lookupForward, Option.map_eq_none_iff, List.find?_eq_none] at hcon
-        exact absurd (hcon p hp) (by simp [hpe])
-      exact absurd hnone this
-    · simp only [Bool.not_eq_true] at hne
-      simpa [lookup_cons_ne _ _ _ _ hne] using hxm
+  · injection h with h; subst h; exact hk
   · split at h
     · cases h
     · injection h with h; subst h
-      intro x hx
-      simp only [List.mem_map, List.mem_filter] at hx
-      obtain ⟨p, ⟨hp, hpn⟩, hpe⟩ := hx
-      have hxm := hk x (List.mem_map.2 ⟨p, hp, hpe⟩)
-      have hne : (s.markerID == x) = false := by
-        subst hpe
-        cases hb : (s.markerID == p.1) with
-        | false => rfl
-        | true => have := eq_of_beq hb; simp [this] at hpn
-      simpa [lookup_cons_ne _ _ _ _ hne] using hxm
+      exact nodup_filter_keys s.forward s.markerID hk
 
-theorem localReference_p (cfg : Cfg) (s s' : RState) (id : Bytes) (m : DT) (h : localReference s id m = .ok s') (hk : PInv cfg s) : PInv cfg s' := by
+theorem localReference_f (cfg : Cfg) (s s' : RState) (id : Bytes) (m : DT) (h : localReference s id m = .ok s') (hk : FInv cfg s) : FInv cfg s' := by
   unfold localReference at h
   split at h
   · split at h
     · cases h
     · injection h with h; subst h; exact hk
-  · rename_i hnone
-    injection h with h; subst h
-    intro x hx
-    simp only [List.map_cons, List.mem_cons, List.mem_map, List.mem_filter] at hx
-    rcases hx with hx | ⟨p, ⟨hp, _⟩, hpe⟩
-    · subst hx; exact hnone
-    · exact hk x (List.mem_map.2 ⟨p, hp, hpe⟩)
+  · injection h with h; subst h
+    show ((id, _) :: s.forward.filter (·.1 != id)).map (·.1) |>.Nodup
+    simp only [List.map_cons, List.nodup_cons]
+    refine ⟨?_, nodup_filter_keys s.forward id hk⟩
+    intro hmem
+    obtain ⟨p, hp, hpe⟩ := List.mem_map.1 hmem
+    have := (List.mem_filter.1 hp).2
+    simp [hpe] at this
 
-theorem execAct_pend (cfg : Cfg) (a : Act) (s : RState) (args : Args) (st : Step)
-    (h : execAct cfg a s args = .ok st) (hk : PInv cfg s) : PInv cfg st.state := by
+theorem execAct_fwd (cfg : Cfg) (a : Act) (s : RState) (args : Args) (st : Step)
+    (h : execAct cfg a s args = .ok st) (hk : FInv cfg s) : FInv cfg st.state := by
   cases a
   case localRefKeyable =>
     simp only [execAct, bind, Except.bind, pure, Except.pure] at h
     cases hl : localReference s args.id Mask.keyable.bits with
     | error e => simp [hl] at h
-    | ok s1 => simp only [hl] at h; injection h with h; subst h; exact localReference_p cfg _ _ _ _ hl hk
+    | ok s1 => simp only [hl] at h; injection h with h; subst h; exact localReference_f cfg _ _ _ _ hl hk
   case localRefAny =>
     simp only [execAct, bind, Except.bind, pure, Except.pure] at h
     cases hl : localReference s args.id Mask.any.bits with
     | error e => simp [hl] at h
-    | ok s1 => simp only [hl] at h; injection h with h; subst h; exact localReference_p cfg _ _ _ _ hl hk
+    | ok s1 => simp only [hl] at h; injection h with h; subst h; exact localReference_f cfg _ _ _ _ hl hk
   case markObject src =>
     simp only [execAct, actMarkObject, bind, Except.bind, pure, Except.pure] at h
     split at h
     · cases h
     · rename_i v hm
       injection h with h; subst h
-      exact markObject_p cfg _ _ _ hm hk
+      exact markObject_f cfg _ _ _ hm hk
   case wrongType => simp [execAct] at h
   case unknown => simp [execAct] at h
   case changeRule r => simp only [execAct] at h; injection h with h; subst h; exact hk
@@ -148,22 +119,22 @@ theorem execAct_pend (cfg : Cfg) (a : Act) (s : RState) (args : Args) (st : Step
     simp only [execAct, bind, Except.bind, pure, Except.pure] at h
     split at h
     · cases h
-    · rename_i v hv; injection h with h; subst h; exact beginContainer_p _ _ _ _ _ _ hv hk
+    · rename_i v hv; injection h with h; subst h; exact beginContainer_f _ _ _ _ _ _ hv hk
   case beginMap =>
     simp only [execAct, bind, Except.bind, pure, Except.pure] at h
     split at h
     · cases h
-    · rename_i v hv; injection h with h; subst h; exact beginContainer_p _ _ _ _ _ _ hv hk
+    · rename_i v hv; injection h with h; subst h; exact beginContainer_f _ _ _ _ _ _ hv hk
   case beginEdge =>
     simp only [execAct, bind, Except.bind, pure, Except.pure] at h
     split at h
     · cases h
-    · rename_i v hv; injection h with h; subst h; exact beginContainer_p _ _ _ _ _ _ hv hk
+    · rename_i v hv; injection h with h; subst h; exact beginContainer_f _ _ _ _ _ _ hv hk
   case beginNode =>
     simp only [execAct, bind, Except.bind, pure, Except.pure] at h
     split at h
     · cases h
-    · rename_i v hv; injection h with h; subst h; exact beginContainer_p _ _ _ _ _ _ hv hk
+    · rename_i v hv; injection h with h; subst h; exact beginContainer_f _ _ _ _ _ _ hv hk
   case beginRecordType =>
     simp only [execAct, actBeginRecordType, bind, Except.bind, pure, Except.pure] at h
     split at h
@@ -173,14 +144,14 @@ theorem execAct_pend (cfg : Cfg) (a : Act) (s : RState) (args : Args) (st : Step
     split at h
     · cases h
     · rename_i v hv; injection h with h; subst h
-      exact (beginContainer_p cfg s v _ _ _ hv hk : PInv cfg v)
+      exact (beginContainer_f cfg s v _ _ _ hv hk : FInv cfg v)
   case beginRecord =>
     simp only [execAct, actBeginRecord, bind, Except.bind, pure, Except.pure] at h
     split at h
     · cases h
     · split at h
       · cases h
-      · rename_i v hv; injection h with h; subst h; exact beginContainer_p _ _ _ _ _ _ hv hk
+      · rename_i v hv; injection h with h; subst h; exact beginContainer_f _ _ _ _ _ _ hv hk
   case endDocument =>
     simp only [execAct] at h
     split at h
@@ -196,37 +167,37 @@ theorem execAct_pend (cfg : Cfg) (a : Act) (s : RState) (args : Args) (st : Step
     split at h
     · split at h
       · cases h
-      · rename_i v hv; injection h with h; subst h; exact notifyKey_p cfg _ _ _ hv hk
+      · rename_i v hv; injection h with h; subst h; exact notifyKey_f cfg _ _ _ hv hk
     · injection h with h; subst h; exact hk
   case notifyKeyOfArray =>
     simp only [execAct, actNotifyKeyOfArray, bind, Except.bind, pure, Except.pure] at h
     split at h
     · split at h
       · cases h
-      · rename_i v hv; injection h with h; subst h; exact notifyKey_p cfg _ _ _ hv hk
+      · rename_i v hv; injection h with h; subst h; exact notifyKey_f cfg _ _ _ hv hk
     · injection h with h; subst h; exact hk
   case notifyKeyOfBuilt =>
     simp only [execAct, actNotifyKeyOfBuilt, bind, Except.bind, pure, Except.pure] at h
     split at h
     · split at h
       · cases h
-      · rename_i v hv; injection h with h; subst h; exact notifyKey_p cfg _ _ _ hv hk
+      · rename_i v hv; injection h with h; subst h; exact notifyKey_f cfg _ _ _ hv hk
     · split at h
       · split at h
         · cases h
-        · rename_i v hv; injection h with h; subst h; exact notifyKey_p cfg _ _ _ hv hk
+        · rename_i v hv; injection h with h; subst h; exact notifyKey_f cfg _ _ _ hv hk
       · injection h with h; subst h; exact hk
   case beginMarkerKeyable m =>
     simp only [execAct, actBeginMarkerKeyable] at h; injection h with h; subst h
-    exact (stackRule_p cfg { s with markerID := args.id } .markedObjectKeyable m.bits none hk)
+    exact (stackRule_f cfg { s with markerID := args.id } .markedObjectKeyable m.bits none hk)
   case beginMarkerAny m =>
     simp only [execAct, actBeginMarkerAny] at h; injection h with h; subst h
-    exact (stackRule_p cfg { s with markerID := args.id } .markedObjectAnyType m.bits none hk)
+    exact (stackRule_f cfg { s with markerID := args.id } .markedObjectAnyType m.bits none hk)
   case unstack =>
     simp only [execAct, bind, Except.bind, pure, Except.pure] at h
     split at h
     · cases h
-    · rename_i v hv; injection h with h; subst h; exact unstackRule_p cfg _ _ hv hk
+    · rename_i v hv; injection h with h; subst h; exact unstackRule_f cfg _ _ hv hk
   case redispatch m ek => simp only [execAct] at h; injection h with h; subst h; exact hk
   case restoreMarkerID => simp only [execAct] at h; injection h with h; subst h; exact hk
   case addFirst => simp only [execAct] at h; injection h with h; subst h; exact hk
@@ -251,7 +222,7 @@ theorem execAct_pend (cfg : Cfg) (a : Act) (s : RState) (args : Args) (st : Step
     simp only [execAct, bind, Except.bind, pure, Except.pure] at h
     split at h
     · cases h
-    · rename_i v hv; injection h with h; subst h; exact beginArrayAny_p _ _ _ _ hv hk
+    · rename_i v hv; injection h with h; subst h; exact beginArrayAny_f _ _ _ _ hv hk
   case validateFullAny =>
     simp only [execAct, bind, Except.bind, pure, Except.pure] at h
     split at h
@@ -287,7 +258,7 @@ theorem execAct_pend (cfg : Cfg) (a : Act) (s : RState) (args : Args) (st : Step
     · cases h
     · split at h
       · cases h
-      · rename_i v hv; injection h with h; subst h; exact beginArrayAny_p _ _ _ _ hv hk
+      · rename_i v hv; injection h with h; subst h; exact beginArrayAny_f _ _ _ _ hv hk
   case validateFirst =>
     simp only [execAct, bind, Except.bind, pure, Except.pure] at h
     split at h
@@ -303,7 +274,7 @@ theorem execAct_pend (cfg : Cfg) (a : Act) (s : RState) (args : Args) (st : Step
     split at h
     · split at h
       · injection h with h; subst h; exact hk
-      · exact leaveArray_p cfg _ _ _ _ h hk
+      · exact leaveArray_f cfg _ _ _ _ h hk
     · injection h with h; subst h; exact hk
   case beginChunk k =>
     simp only [execAct, actBeginChunk] at h
@@ -318,12 +289,12 @@ theorem execAct_pend (cfg : Cfg) (a : Act) (s : RState) (args : Args) (st : Step
     · split at h
       · split at h
         · injection h with h; subst h; exact hk
-        · exact leaveArray_p cfg _ _ _ _ h hk
+        · exact leaveArray_f cfg _ _ _ _ h hk
       · split at h
         · cases h
         · split at h
           · injection h with h; subst h; exact hk
-          · exact leaveArray_p cfg _ _ _ _ h hk
+          · exact leaveArray_f cfg _ _ _ _ h hk
     · injection h with h; subst h; exact hk
   case streamStringData =>
     simp only [execAct, actStreamStringData, bind, Except.bind, pure, Except.pure, streamStringData_eq] at h
@@ -345,16 +316,16 @@ theorem execAct_pend (cfg : Cfg) (a : Act) (s : RState) (args : Args) (st : Step
       | (cases h; done)
       | (injection h with h; subst h
          first
-           | exact unstack_depth_p cfg _ _ (by assumption) hk
-           | exact unstack_depth_p cfg _ _ (by assumption) (ite_ok_p cfg _ _ _ _ _ (by assumption) hk))
+           | exact unstack_depth_f cfg _ _ (by assumption) hk
+           | exact unstack_depth_f cfg _ _ (by assumption) (ite_ok_f cfg _ _ _ _ _ (by assumption) hk))
 
 end CE.Rules
 namespace CE.Rules
 
 
 
-theorem runActs_pend (tbl : RuleTable) (cfg : Cfg) : ∀ (fuel : Nat) (acts : List Act) (s : RState) (args : Args) (s' : RState),
-    runActs tbl cfg fuel acts s args = .ok s' → PInv cfg s → PInv cfg s'
+theorem runActs_fwd (tbl : RuleTable) (cfg : Cfg) : ∀ (fuel : Nat) (acts : List Act) (s : RState) (args : Args) (s' : RState),
+    runActs tbl cfg fuel acts s args = .ok s' → FInv cfg s → FInv cfg s'
   | _, [], s, _, s', h, hk => by
     simp only [runActs] at h
     injection h with h; subst h; exact hk
@@ -364,12 +335,12 @@ theorem runActs_pend (tbl : RuleTable) (cfg : Cfg) : ∀ (fuel : Nat) (acts : Li
     cases he : execAct cfg a s args with
     | error e => simp [he] at h
     | ok st =>
-      have hk1 := execAct_pend cfg a s args st he hk
+      have hk1 := execAct_fwd cfg a s args st he hk
       simp only [he] at h
       cases st with
       | next s1 args1 =>
         simp only [] at h
-        exact runActs_pend tbl cfg fuel rest s1 args1 s' h hk1
+        exact runActs_fwd tbl cfg fuel rest s1 args1 s' h hk1
       | ret s1 =>
         simp only [] at h
         injection h with h; subst h
@@ -380,7 +351,7 @@ theorem runActs_pend (tbl : RuleTable) (cfg : Cfg) : ∀ (fuel : Nat) (acts : Li
         | error e => simp [hc] at h
         | ok s2 =>
           simp only [hc] at h
-          have h2 := runActs_pend tbl cfg fuel (tbl r m) s1 args1 s2 hc hk1
+          have h2 := runActs_fwd tbl cfg fuel (tbl r m) s1 args1 s2 hc hk1
           cases thenRet with
           | true =>
             simp only [if_true] at h
@@ -388,9 +359,9 @@ theorem runActs_pend (tbl : RuleTable) (cfg : Cfg) : ∀ (fuel : Nat) (acts : Li
             exact h2
           | false =>
             simp only [Bool.false_eq_true, if_false] at h
-            exact runActs_pend tbl cfg fuel rest s2 args s' h h2
+            exact runActs_fwd tbl cfg fuel rest s2 args s' h h2
 
-theorem nno_p (cfg : Cfg) (s s' : RState) (b : Bool) (h : notifyNewObject cfg s b = .ok s') (hk : PInv cfg s) : PInv cfg s' := by
+theorem nno_f (cfg : Cfg) (s s' : RState) (b : Bool) (h : notifyNewObject cfg s b = .ok s') (hk : FInv cfg s) : FInv cfg s' := by
   unfold notifyNewObject at h
   simp only [bind, Except.bind, pure, Except.pure, throw, throwThe, MonadExceptOf.throw] at h
   repeat' (split at h)
@@ -398,12 +369,12 @@ theorem nno_p (cfg : Cfg) (s s' : RState) (b : Bool) (h : notifyNewObject cfg s 
     | (cases h; done)
     | (injection h with h; subst h; exact hk)
 
-theorem pend_nno_call (tbl : RuleTable) (cfg : Cfg) (s s1 s2 : RState) (b : Bool) (m : Method) (args : Args)
-    (h1 : notifyNewObject cfg s b = .ok s1) (h2 : call tbl cfg s1 m args = .ok s2) (hk : PInv cfg s) : PInv cfg s2 :=
-  runActs_pend tbl cfg _ _ s1 args s2 h2 (nno_p cfg s s1 b h1 hk)
+theorem fwd_nno_call (tbl : RuleTable) (cfg : Cfg) (s s1 s2 : RState) (b : Bool) (m : Method) (args : Args)
+    (h1 : notifyNewObject cfg s b = .ok s1) (h2 : call tbl cfg s1 m args = .ok s2) (hk : FInv cfg s) : FInv cfg s2 :=
+  runActs_fwd tbl cfg _ _ s1 args s2 h2 (nno_f cfg s s1 b h1 hk)
 
-theorem step_pend (env : Env) (s : RState) (e : Ev) (r : RState × List Ev) (h : step env s e = .ok r)
-    (hk : PInv env.cfg s) : PInv env.cfg r.1 := by
+theorem step_fwd (env : Env) (s : RState) (e : Ev) (r : RState × List Ev) (h : step env s e = .ok r)
+    (hk : FInv env.cfg s) : FInv env.cfg r.1 := by
   unfold step at h
   cases e
   all_goals simp only [bind, Except.bind, pure, Except.pure, throw, throwThe, MonadExceptOf.throw] at h
@@ -413,11 +384,11 @@ theorem step_pend (env : Env) (s : RState) (e : Ev) (r : RState × List Ev) (h :
     | contradiction
     | (injection h with h; subst h
        first
-         | exact pend_nno_call _ _ _ _ _ _ _ _ (by assumption) (by assumption) hk
-         | exact runActs_pend _ _ _ _ _ _ _ (by assumption) hk)
+         | exact fwd_nno_call _ _ _ _ _ _ _ _ (by assumption) (by assumption) hk
+         | exact runActs_fwd _ _ _ _ _ _ _ (by assumption) hk)
 
-/-- in every state the validator reaches on any stream: no waiting forward reference names a registered marker -/
-theorem run_pend (env : Env) : ∀ (evs : List Ev) (s : RState) (i : Nat), PInv env.cfg s → PInv env.cfg (run env s evs i).2.2
+/-- in every state the validator reaches on any stream: no identifier waits twice as a forward reference -/
+theorem run_fwd (env : Env) : ∀ (evs : List Ev) (s : RState) (i : Nat), FInv env.cfg s → FInv env.cfg (run env s evs i).2.2
   | [], s, i, hk => by simpa [run] using hk
   | e :: es, s, i, hk => by
     simp only [run]
@@ -426,6 +397,6 @@ theorem run_pend (env : Env) : ∀ (evs : List Ev) (s : RState) (i : Nat), PInv 
     | ok r =>
       obtain ⟨s1, fwd⟩ := r
       simp only []
-      exact run_pend env es s1 (i + 1) (step_pend env s e (s1, fwd) hs hk)
+      exact run_fwd env es s1 (i + 1) (step_fwd env s e (s1, fwd) hs hk)
 
 end CE.Rules
